@@ -260,6 +260,20 @@ func genC13(g *G) {
 			g.Emit("dec", HS(s))
 		}
 	}
+	// long haystacks with many false starts: N repetitions of a decoy that begins with a member of the
+	// needle's first fold orbit but does not match, then (or not) a fold variant of the needle
+	type decoyCase struct{ decoy, hit, needle string }
+	for _, dc := range []decoyCase{
+		{"σοφία ", "ΣΟΦΌΣ", "σοφός"}, {"σοφία ", "σοφόσ", "ΣΟΦΌς"}, {"kx", "k!?", "K!"}, {"Kx", "K!", "k!"}, {"ſt ", "ST", "st"},
+		{"ab", "aB!", "Ab!"}, {"θx", "ϑy", "Θy"}, {"вг", "ᲀд", "Вд"}, {"ιx", "ͅy", "Ιy"},
+	} {
+		for _, n := range []int{1, 15, 16, 17, 18, 33, 70} {
+			emit(strings.Repeat(dc.decoy, n)+dc.hit, dc.needle)
+			emit(strings.Repeat(dc.decoy, n)+dc.hit+dc.decoy, dc.needle)
+			emit(strings.Repeat(dc.decoy, n), dc.needle)
+			emit(strings.Repeat(dc.decoy, n)+dc.hit[:len(dc.hit)-1], dc.needle)
+		}
+	}
 	// ASCII: all pairs over {a, A, k, K, s, 1} with |s| <= 4, |sub| <= 2 (quick: sampled)
 	asc := []string{"a", "A", "k", "K", "s", "1"}
 	for _, s := range words(4, asc) {
